@@ -13,6 +13,9 @@ def run(tier, seed):
     specs = leaf.specs(("read", "write", "roundtrip"), tier)
     specs += [("contracts.tables", "make_table", ("names",)), ("contracts.tables", "make_table", ("endianness",))]
     specs += leaf.array_specs(tier)
+    from contracts import lemmas
+
+    specs += lemmas.specs(tier)
     res = run_cases(specs)
     rep.add_case_results(res, "T1")
     # compiled structures follow the current byte order too: C03-style relational run after switching the byte order
